@@ -495,7 +495,7 @@ Proof.
   set (bN := N.max 1 (m / n)).
   exists (N.to_nat bN). split; [unfold bN; lia|].
   assert (RN : read_n s n Unb Unb fs = (fs, Ok (resample p (N.to_nat bN) (x :: t)))).
-  { unfold read_n. rewrite RDn. cbn [map sorted_desc negb].
+  { unfold read_n. rewrite RDn. cbn [sorted_lens].
     replace (n =? 0)%N with false by (symmetry; apply N.eqb_neq; lia).
     cbn [pick_level]. erewrite mbind_ok by reflexivity.
     unfold seek_pos. rewrite (rough_new_unb fs (s_data s) p hdr ihdr x t f' RD W).
